@@ -69,8 +69,33 @@ def oracle(ctx, n_cases):
         # the fit is scale-invariant: coordinates in A, but also tiny / large units
         sc = rng.choice([1e-6, 1e-4, 1e-2, 1.0, 1.0, 1.0, 1.0, 100.0])
         hist['scale %g' % sc] = hist.get('scale %g' % sc, 0) + 1
-        mode = rng.choice(['random', 'random', 'random', 'origin'])
-        if mode == 'origin':
+        mode = rng.choice(['random', 'random', 'random', 'origin', 'halfturn', 'tiny'])
+        hist['mode ' + mode] = hist.get('mode ' + mode, 0) + 1
+        fixed_R = None
+        if mode == 'halfturn':
+            # a molecule with 222 symmetry whose target is its own image under one of the two-fold axes: the cross-correlation
+            # matrix of source and target is symmetric (its antisymmetric part, three entries of the 4x4 form, vanishes) although
+            # the best rotation is a half turn, not the identity
+            n = 4 * rng.randint(1, 5)
+            gen0 = [[rng.uniform(0.5, 5.0) * rng.choice([-1, 1]) for _ in range(3)] for _ in range(n // 4)]
+            src = [[sx * p[0], sy * p[1], sx * sy * p[2]] for p in gen0 for sx, sy in ((1, 1), (1, -1), (-1, 1), (-1, -1))]
+            ax = rng.randint(0, 2)
+            half = [[(1.0 if i == j else 0.0) * (1 if i == ax else -1) for j in range(3)] for i in range(3)]
+            G = rand_rot(rng) if rng.random() < 0.5 else [[1.0, 0, 0], [0, 1.0, 0], [0, 0, 1.0]]
+            src = [[v * sc for v in apply(G, [0, 0, 0], p)] for p in src]
+            GT = [[G[j][i] for j in range(3)] for i in range(3)]
+            GH = [[sum(G[i][m] * half[m][j] for m in range(3)) for j in range(3)] for i in range(3)]
+            fixed_R = [[sum(GH[i][m] * GT[m][j] for m in range(3)) for j in range(3)] for i in range(3)]
+        elif mode == 'tiny':
+            # the fragment has almost the orientation of the target: rotation angles of 1e-5 .. 3e-3 rad
+            src = [[v * sc for v in p] for p in gen_set(rng, n)]
+            axv = [rng.gauss(0, 1) for _ in range(3)]
+            an = norm(axv); axv = [x / an for x in axv]
+            th = 10 ** rng.uniform(-5, -2.5)
+            c, s_ = math.cos(th), math.sin(th)
+            K = [[0, -axv[2], axv[1]], [axv[2], 0, -axv[0]], [-axv[1], axv[0], 0]]
+            fixed_R = [[(1 if i == j else 0) * c + s_ * K[i][j] + (1 - c) * axv[i] * axv[j] for j in range(3)] for i in range(3)]
+        elif mode == 'origin':
             # integer coordinates whose centroid is exactly the origin (exact in floating point)
             while True:
                 src = [[float(rng.randint(-6, 6)) for _ in range(3)] for _ in range(n - 1)]
@@ -85,6 +110,8 @@ def oracle(ctx, n_cases):
             src = [[v * sc for v in p] for p in gen_set(rng, n)]
         R, t = rand_rot(rng), [rng.uniform(-10, 10) * sc for _ in range(3)]
         noise = rng.choice([0.0, 0.0, 0.05, 0.3]) * sc
+        if fixed_R is not None:
+            R, noise = fixed_R, 0.0
         tgt = [[v + rng.gauss(0, noise) if noise else v for v in apply(R, t, p)] for p in src]
         cs, pc = centre(src)
         ct, qc = centre(tgt)
@@ -107,31 +134,35 @@ def oracle(ctx, n_cases):
 
         def bad(what, exp, obs):
             common.add_violation(ctx, what, dict(case), exp, obs)
-        # (a) the form for n pairs = sum of one-pair forms (Horn)
-        N = got['N']
-        mine = horn_form(cs, ct)
-        code = [N[0][0], N[0][1], N[0][2], N[0][3], N[1][1], N[1][2], N[1][3], N[2][2], N[2][3], N[3][3]]
-        scale = max(abs(x) for x in mine) or 1.0
-        if max(abs(a - b) for a, b in zip(mine, code)) > 1e-9 * scale:
-            ctx.broken.append('correspondence: qtrfit form for n=%d pairs differs from the sum of traced one-pair forms' % n)
-            bad('4x4 quadratic form differs from Horn\'s matrix', mine, code)
-        # (b) eigen certificate assumed by C20_eigen_max
-        V, d = got['V'], got['d']
-        Nf = [[0.0] * 4 for _ in range(4)]
-        idx = 0
-        for i in range(4):
-            for j in range(i, 4):
-                Nf[i][j] = Nf[j][i] = mine[idx]; idx += 1
-        err = 0.0
-        for i in range(4):
-            for j in range(4):
-                err = max(err, abs(sum(V[k][i] * V[k][j] for k in range(4)) - (1.0 if i == j else 0.0)))
-                err = max(err, abs(sum(V[i][k] * V[j][k] for k in range(4)) - (1.0 if i == j else 0.0)))
-                err = max(err, abs(sum(V[i][k] * d[k] * V[j][k] for k in range(4)) - Nf[i][j]) / scale)
-        if err > 1e-8 or not (d[0] <= d[3] and d[1] <= d[3] and d[2] <= d[3]):
-            bad('jacobi did not return an orthogonal eigen-decomposition with the largest eigenvalue last', '< 1e-8', err)
-        if max(abs(q[i] - V[i][3]) for i in range(4)) > 0:
-            bad('qtrfit does not extract the eigenvector of the largest eigenvalue', [V[i][3] for i in range(4)], q)
+        if 'N' not in got:
+            if not any('without calling jacobi' in x for x in ctx.broken):
+                ctx.broken.append('correspondence: qtrfit returned without calling jacobi (the eigen certificate of C20_eigen_max cannot be observed)')
+        else:
+            # (a) the form for n pairs = sum of one-pair forms (Horn)
+            N = got['N']
+            mine = horn_form(cs, ct)
+            code = [N[0][0], N[0][1], N[0][2], N[0][3], N[1][1], N[1][2], N[1][3], N[2][2], N[2][3], N[3][3]]
+            scale = max(abs(x) for x in mine) or 1.0
+            if max(abs(a - b) for a, b in zip(mine, code)) > 1e-9 * scale:
+                ctx.broken.append('correspondence: qtrfit form for n=%d pairs differs from the sum of traced one-pair forms' % n)
+                bad('4x4 quadratic form differs from Horn\'s matrix', mine, code)
+            # (b) eigen certificate assumed by C20_eigen_max
+            V, d = got['V'], got['d']
+            Nf = [[0.0] * 4 for _ in range(4)]
+            idx = 0
+            for i in range(4):
+                for j in range(i, 4):
+                    Nf[i][j] = Nf[j][i] = mine[idx]; idx += 1
+            err = 0.0
+            for i in range(4):
+                for j in range(4):
+                    err = max(err, abs(sum(V[k][i] * V[k][j] for k in range(4)) - (1.0 if i == j else 0.0)))
+                    err = max(err, abs(sum(V[i][k] * V[j][k] for k in range(4)) - (1.0 if i == j else 0.0)))
+                    err = max(err, abs(sum(V[i][k] * d[k] * V[j][k] for k in range(4)) - Nf[i][j]) / scale)
+            if err > 1e-8 or not (d[0] <= d[3] and d[1] <= d[3] and d[2] <= d[3]):
+                bad('jacobi did not return an orthogonal eigen-decomposition with the largest eigenvalue last', '< 1e-8', err)
+            if max(abs(q[i] - V[i][3]) for i in range(4)) > 0:
+                bad('qtrfit does not extract the eigenvector of the largest eigenvalue', [V[i][3] for i in range(4)], q)
         # (c) proper rotation
         Um = [list(r) for r in U]
         orth = max(abs(sum(Um[k][i] * Um[k][j] for k in range(3)) - (1.0 if i == j else 0.0)) for i in range(3) for j in range(3))
@@ -200,7 +231,8 @@ def run(ctx):
     ev = oracle(ctx, 15000 if ctx.thorough() else 250)
     ctx.cov['evaluations'] = ev
     ctx.cov['distinct_nontrivial'] = ev
-    ctx.cov['rule'] = ('random non-planar point sets of 3..30 points, random rotation + translation, noise 0 / 0.05 / 0.3 A; per set: '
+    ctx.cov['rule'] = ('random non-planar point sets of 3..30 points (also: integer sets centred exactly at the origin; 222-symmetric sets whose target is '
+                       'their image under a two-fold axis; targets rotated by 1e-5..3e-3 rad only), random rotation + translation, noise 0 / 0.05 / 0.3 A; per set: '
                        'form vs Horn matrix, eigen certificate of jacobi, proper rotation, RMSD vs 40 alternative rotations '
                        '(random and perturbations), fit_fragment on a random non-collinear subset; all random, hence distinct')
     ctx.assumptions += ['Jacobi convergence within 30 sweeps is not proved: the eigen certificate (V orthogonal, N = V D V^T, d3 largest) '
